@@ -1242,6 +1242,19 @@ pub fn check_step(cx: &StepCtx) -> Vec<Violation> {
                     }
                     // release group: paid-out capacity never exceeds arrivals
                     let newly: Vec<&HistView> = post.hist.iter().filter(|h| h.released && !pre.hist.iter().any(|p| p.id == h.id && p.released)).collect();
+                    // ... and only batches whose undelegation the chain has already paid are released
+                    // (completion times from the history of operations, not from the times the hub
+                    // recorded): a batch released early is measured against coins that have not
+                    // arrived, and the difference is booked as a slash on every batch of the group
+                    if let Some(gc) = cx.ghost_completion {
+                        for h in newly.iter() {
+                            if let Some(t) = gc.get(&h.id) {
+                                if *t > post.time {
+                                    out.push(v("C01", "released-before-completion", format!("withdraw by {} released batch {} at {} but the chain pays its undelegation at {}", sender, h.id, post.time, t)));
+                                }
+                            }
+                        }
+                    }
                     if !newly.is_empty() {
                         let arrived = (pre.hub_bank + attached_to_hub(op)).saturating_sub(pre.raw[5]);
                         let alloc: u128 = newly.iter().map(|h| floor_mul(h.b_amt, h.b_withdraw) + floor_mul(h.s_amt, h.s_withdraw)).sum();
@@ -1350,6 +1363,12 @@ pub fn check_step(cx: &StepCtx) -> Vec<Violation> {
                 if post.raw[1] != want {
                     out.push(v("C19", "stsei-rate-ne-pool-over-supply", format!("after re-bonding {} the stored stSei rate is {} but {} / ({} + {}) = {}", rebonded, post.raw[1], post.raw[3], post.supply_s, post.batch.2, want)));
                 }
+            }
+            // with no bSei holder nothing can be distributed: what arrives stays *unrecorded*, so that
+            // the next update with holders distributes it (recording it now strands it for ever)
+            if pre.rw.1 == 0 && post.rw.2 != pre.rw.2 {
+                out.push(v("C19", "rewards-recorded-with-no-holder", format!("no bSei holder, yet the recorded reward balance moved {} → {}", pre.rw.2, post.rw.2)));
+                out.push(v("C14", "rewards-recorded-with-no-holder", format!("no bSei holder, yet the recorded reward balance moved {} → {}", pre.rw.2, post.rw.2)));
             }
             // keeper gets floor(balance × rate) of each coin; everything else is forwarded
             let to_keeper: [u128; 2] = [0u8, 1u8].map(|d| cx.effects.iter().map(|e| match e { Effect::Bank { from, to, denom, amt } if *from == DISP && *to == pre.keeper && *denom == d => *amt, _ => 0 }).sum());
